@@ -1,7 +1,9 @@
-ENGINES.append({"name": "policer", "path": "harness/eng_policer.go", "serves_properties": ["C26", "C27"],
+ENGINES.append({"name": "policer", "path": "harness/eng_policer.go", "serves_properties": ["C22", "C26", "C27"],
                 "kind_free_text": "runs the real Policer.processObject (processNodes, processECPart, nodeCache) and the real "
                                   "Replicator.HandleTask (over a real storage engine) in a scripted environment - fake network/placement, "
-                                  "fake remote HEAD answers, fake remote replication endpoints - against Model/Policer.lean"})
+                                  "fake remote HEAD answers, fake remote replication endpoints - against Model/Policer.lean; op `task`: the real HandleTask with the context "
+                                  "cancelled while a transfer is in flight; op `recreate`: the real pass over a local EC part with a scripted "
+                                  "state of the sibling parts (checkECParts, recreateECParts, real replicator, really re-calculated parts)"})
 
 prop("C26",
      theorems=["NeoFS.Policer.drop_implies_confirmed", "NeoFS.Policer.repPart_drop_safe", "NeoFS.Policer.ecPartByRule_drop_safe",
@@ -25,9 +27,11 @@ prop("C26",
            "to the real processObject + real Replicator.HandleTask by a line-by-line differential run (delete marks, shard-copy drop, order of "
            "HEAD requests, every replication task with quantity/candidates/successes) and the property's own sentences are recounted from the "
            "fakes' logs on every pass.",
-     note="Trusted: Lean kernel; hand model Model/Policer.lean, tied by correspondence only. Not modelled: context cancellation (never cancelled "
-          "in the run), checkECParts/recreateECParts (sibling-part health check: in the run every sibling HEAD succeeds so it never acts; it never "
-          "deletes), metrics/boost window, the Delete call failing. The guarantee is about what THIS pass saw: a header read earlier in the pass "
+     note="Trusted: Lean kernel; hand model Model/Policer.lean, tied by correspondence only. Not modelled: cancellation of the context of a "
+          "PASS (never cancelled in the `pass` ops; cancellation inside the replicator is modelled and run by op `task`, see C27), "
+          "metrics/boost window, the Delete call failing. checkECParts/recreateECParts (sibling-part health check; never deletes) is modelled "
+          "and run by op `recreate` (see C22); in the `pass` ops every sibling HEAD succeeds so it never acts. The shortage counter is modelled "
+          "as the code's uint32 (dec32 wraps at zero; copy numbers are uint32 in the protocol). The guarantee is about what THIS pass saw: a header read earlier in the pass "
           "may be stale by the time of the delete (inherent to the protocol). Default-mark deletions (container not found, EC attributes that do "
           "not fit the policy) are policy clean-ups, not redundancy drops, and are outside the statement; the model reproduces them, including "
           "the missing `return` after deleting an EC-attributed object in a container without EC rules (REP lists are still processed). "
